@@ -8,7 +8,16 @@
 (*  CtorHit / CtorMiss   lru_cache lookup of encode_url / pre_encoded_url  *)
 (*                       (miss: new object, eager entries pre-filled,      *)
 (*                       stored, least recently used entry evicted)        *)
-(*  FromPartsHit / Miss  lru_cache lookup of from_parts (modifier results) *)
+(*  ModifyCachedHit/Miss lru_cache lookup of from_parts: the result of a    *)
+(*                       modifier (with_scheme/host/port/user/password/    *)
+(*                       path/fragment/name/suffix, parent, origin,        *)
+(*                       relative, truediv, joinpath, join, URL(Split-     *)
+(*                       Result)) is a SHARED object when the same five    *)
+(*                       parts were produced before                        *)
+(*  ModifyUncached       from_parts_uncached (with_query, extend_query,    *)
+(*                       update_query): always a fresh object              *)
+(*  SelfReturn           URL(url), with_fragment(same), extend_query(),    *)
+(*                       without_query_params(absent): the receiver itself *)
 (*  PropHit / PropFill   under_cached_property: _cache hit / compute+store *)
 (*  Unpickle             URL.__new__(UNDEFINED) + __setstate__: a FRESH    *)
 (*                       object, never one of the shared ones              *)
@@ -27,13 +36,23 @@ EXTENDS Naturals, Sequences, FiniteSets, TLC
 CONSTANTS Vals,          \* abstract URL values (five-tuples)
           Props,         \* accessor names
           Hosts,         \* host texts
-          MaxObjs, LruSize, MaxSteps
+          MaxObjs, LruSize, MaxSteps,
+          CachedStep(_, _),    \* CachedStep(v, w): some from_parts-cached modifier takes a URL of value v to value w
+          UncachedStep(_, _)   \* the same for the from_parts_uncached modifiers
+\* instances of the two step relations
+AnyStep(v, w) == TRUE                                \* R1: full generality
+\* R2 (replay on the real library): values are <<fragment, query>> coordinates; with_fragment changes the first
+\* (and returns self when it is unchanged), with_query rewrites the second (possibly to the same text)
+GridVals == {1, 2} \X {1, 2}
+CachedGrid(v, w) == v[2] = w[2] /\ v # w
+UncachedGrid(v, w) == v[1] = w[1]
 
 \* negative configurations (cfg: Dev_X <- TrueC)
 TrueC == TRUE
 Dev_UnpickleThroughCache == FALSE   \* __setstate__ applied to an object obtained from the cached constructor
 Dev_HostKeyWithoutFlag   == FALSE   \* _encode_host keyed on host only (validate_host dropped from the key)
 Dev_EagerWrong           == FALSE   \* the constructor pre-fills an entry that differs from the lazily derived one
+Dev_FromPartsKeyPartial  == FALSE   \* from_parts keyed on fewer than the five parts (two values share a key)
 
 Derive(k, v) == <<"derived", k, v>>                 \* what accessor k of value v must return
 PureHost(h, flag) == <<"host", h, flag>>             \* what _encode_host(h, flag) must return
@@ -41,28 +60,34 @@ EagerProps == Props                                  \* entries encode_url pre-f
 
 VARIABLES heap,      \* object id -> [val, cache: partial function Props -> value]
           lru,       \* constructor cache: sequence (recency order, most recent last) of <<val, object id>>
+          lruP,      \* from_parts cache: the same shape, keyed by the five parts
           hostc,     \* host cache: set of <<key, result>>
           last,      \* result of the last completed call: [call, result] (history variable, VIEW-hidden)
           steps
-vars == <<heap, lru, hostc, last, steps>>
+vars == <<heap, lru, lruP, hostc, last, steps>>
 
 Ids == DOMAIN heap
 NewId == Cardinality(Ids) + 1
 EmptyCache == [p \in {} |-> 0]
 Fill(cache, p, x) == [q \in DOMAIN cache \cup {p} |-> IF q = p THEN x ELSE cache[q]]
 
-Init == heap = <<>> /\ lru = <<>> /\ hostc = {} /\ last = [call |-> <<"none">>, result |-> <<"nil">>, obj |-> 0] /\ steps = 0
+Init == heap = <<>> /\ lru = <<>> /\ lruP = <<>> /\ hostc = {}
+        /\ last = [call |-> <<"none">>, result |-> <<"nil">>, obj |-> 0, ret |-> 0] /\ steps = 0
 
 LruIndex(v) == {i \in 1..Len(lru) : lru[i][1] = v}
 Touch(i) == SubSeq(lru, 1, i - 1) \o SubSeq(lru, i + 1, Len(lru)) \o <<lru[i]>>
+PKey(v) == IF Dev_FromPartsKeyPartial THEN "k" ELSE v
+PIndex(v) == {i \in 1..Len(lruP) : lruP[i][1] = PKey(v)}
+TouchP(i) == SubSeq(lruP, 1, i - 1) \o SubSeq(lruP, i + 1, Len(lruP)) \o <<lruP[i]>>
 Tick == steps < MaxSteps /\ steps' = steps + 1
+Nil == <<"nil">>
 
 \* URL(s) with s parsing to value v: cache hit returns the SHARED object
 CtorHit(v) == /\ Tick /\ LruIndex(v) # {}
               /\ LET i == CHOOSE j \in LruIndex(v) : TRUE IN
                  /\ lru' = Touch(i)
-                 /\ last' = [call |-> <<"ctor", v>>, result |-> <<"obj", heap[lru[i][2]].val>>, obj |-> lru[i][2]]
-              /\ UNCHANGED <<heap, hostc>>
+                 /\ last' = [call |-> <<"ctor", v>>, result |-> <<"obj", heap[lru[i][2]].val>>, obj |-> lru[i][2], ret |-> lru[i][2]]
+              /\ UNCHANGED <<heap, lruP, hostc>>
 \* miss: new object with some eager entries, stored; LRU eviction
 CtorMiss(v) == /\ Tick /\ LruIndex(v) = {} /\ Cardinality(Ids) < MaxObjs
                /\ \E eager \in SUBSET EagerProps :
@@ -70,46 +95,68 @@ CtorMiss(v) == /\ Tick /\ LruIndex(v) = {} /\ Cardinality(Ids) < MaxObjs
                         o == NewId IN
                     /\ heap' = Append(heap, [val |-> v, cache |-> c])
                     /\ lru' = (IF Len(lru) >= LruSize THEN Tail(lru) ELSE lru) \o << <<v, o>> >>
-                    /\ last' = [call |-> <<"ctor", v>>, result |-> <<"obj", v>>, obj |-> o]
-               /\ UNCHANGED hostc
-\* a modifier: result value w from receiver o (from_parts is cached the same way: modelled by Ctor* on w)
-Modify(o, w) == /\ Tick /\ o \in Ids /\ Cardinality(Ids) < MaxObjs
-                /\ heap' = Append(heap, [val |-> w, cache |-> EmptyCache])
-                /\ last' = [call |-> <<"modify", heap[o].val, w>>, result |-> <<"obj", w>>, obj |-> o]
-                /\ UNCHANGED <<lru, hostc>>
+                    /\ last' = [call |-> <<"ctor", v>>, result |-> <<"obj", v>>, obj |-> o, ret |-> o]
+               /\ UNCHANGED <<lruP, hostc>>
+\* a modifier that ends in from_parts(...): hit returns the SHARED object that an earlier caller got
+ModifyCachedHit(o, w) ==
+  /\ Tick /\ o \in Ids /\ CachedStep(heap[o].val, w) /\ PIndex(w) # {}
+  /\ LET i == CHOOSE j \in PIndex(w) : TRUE IN
+     /\ lruP' = TouchP(i)
+     /\ last' = [call |-> <<"modify", heap[o].val, w>>, result |-> <<"obj", heap[lruP[i][2]].val>>, obj |-> o, ret |-> lruP[i][2]]
+  /\ UNCHANGED <<heap, lru, hostc>>
+ModifyCachedMiss(o, w) ==
+  /\ Tick /\ o \in Ids /\ CachedStep(heap[o].val, w) /\ PIndex(w) = {} /\ Cardinality(Ids) < MaxObjs
+  /\ heap' = Append(heap, [val |-> w, cache |-> EmptyCache])
+  /\ lruP' = (IF Len(lruP) >= LruSize THEN Tail(lruP) ELSE lruP) \o << <<PKey(w), NewId>> >>
+  /\ last' = [call |-> <<"modify", heap[o].val, w>>, result |-> <<"obj", w>>, obj |-> o, ret |-> NewId]
+  /\ UNCHANGED <<lru, hostc>>
+\* a modifier that ends in from_parts_uncached(...): always a fresh object, no cache touched
+ModifyUncached(o, w) ==
+  /\ Tick /\ o \in Ids /\ UncachedStep(heap[o].val, w) /\ Cardinality(Ids) < MaxObjs
+  /\ heap' = Append(heap, [val |-> w, cache |-> EmptyCache])
+  /\ last' = [call |-> <<"modifyq", heap[o].val, w>>, result |-> <<"obj", w>>, obj |-> o, ret |-> NewId]
+  /\ UNCHANGED <<lru, lruP, hostc>>
+\* an operation that returns its receiver (sound only because objects never change)
+SelfReturn(o) ==
+  /\ Tick /\ o \in Ids
+  /\ last' = [call |-> <<"self", heap[o].val>>, result |-> <<"obj", heap[o].val>>, obj |-> o, ret |-> o]
+  /\ UNCHANGED <<heap, lru, lruP, hostc>>
 \* reading accessor p of object o
 PropHit(o, p) == /\ Tick /\ o \in Ids /\ p \in DOMAIN heap[o].cache
-                 /\ last' = [call |-> <<"read", heap[o].val, p>>, result |-> heap[o].cache[p], obj |-> o]
-                 /\ UNCHANGED <<heap, lru, hostc>>
+                 /\ last' = [call |-> <<"read", heap[o].val, p>>, result |-> heap[o].cache[p], obj |-> o, ret |-> 0]
+                 /\ UNCHANGED <<heap, lru, lruP, hostc>>
 PropFill(o, p) == /\ Tick /\ o \in Ids /\ p \notin DOMAIN heap[o].cache
                   /\ heap' = [heap EXCEPT ![o].cache = Fill(@, p, Derive(p, heap[o].val))]
-                  /\ last' = [call |-> <<"read", heap[o].val, p>>, result |-> Derive(p, heap[o].val), obj |-> o]
-                  /\ UNCHANGED <<lru, hostc>>
+                  /\ last' = [call |-> <<"read", heap[o].val, p>>, result |-> Derive(p, heap[o].val), obj |-> o, ret |-> 0]
+                  /\ UNCHANGED <<lru, lruP, hostc>>
 \* pickle.loads(pickle.dumps(o)): URL.__new__(UNDEFINED) gives a FRESH object whose state is then set
 Unpickle(o) == /\ Tick /\ o \in Ids
                /\ IF Dev_UnpickleThroughCache /\ lru # <<>>
                   THEN \* the defect the UNDEFINED branch guards against: __setstate__ lands on a cached, shared object
                        LET victim == lru[Len(lru)][2] IN
-                       heap' = [heap EXCEPT ![victim] = [val |-> heap[o].val, cache |-> EmptyCache]]
+                       /\ heap' = [heap EXCEPT ![victim] = [val |-> heap[o].val, cache |-> EmptyCache]]
+                       /\ last' = [call |-> <<"unpickle", heap[o].val>>, result |-> <<"obj", heap[o].val>>, obj |-> o, ret |-> victim]
                   ELSE /\ Cardinality(Ids) < MaxObjs
                        /\ heap' = Append(heap, [val |-> heap[o].val, cache |-> EmptyCache])
-               /\ last' = [call |-> <<"unpickle", heap[o].val>>, result |-> <<"obj", heap[o].val>>, obj |-> o]
-               /\ UNCHANGED <<lru, hostc>>
+                       /\ last' = [call |-> <<"unpickle", heap[o].val>>, result |-> <<"obj", heap[o].val>>, obj |-> o, ret |-> NewId]
+               /\ UNCHANGED <<lru, lruP, hostc>>
 \* _encode_host(h, flag)
 HostKey(h, flag) == IF Dev_HostKeyWithoutFlag THEN <<h>> ELSE <<h, flag>>
 HostCall(h, flag) == /\ Tick
                      /\ LET hit == {e \in hostc : e[1] = HostKey(h, flag)} IN
-                        IF hit # {} THEN /\ last' = [call |-> <<"host", h, flag>>, result |-> (CHOOSE e \in hit : TRUE)[2], obj |-> 0]
+                        IF hit # {} THEN /\ last' = [call |-> <<"host", h, flag>>, result |-> (CHOOSE e \in hit : TRUE)[2], obj |-> 0, ret |-> 0]
                                          /\ UNCHANGED hostc
                         ELSE /\ hostc' = hostc \cup {<<HostKey(h, flag), PureHost(h, flag)>>}
-                             /\ last' = [call |-> <<"host", h, flag>>, result |-> PureHost(h, flag), obj |-> 0]
-                     /\ UNCHANGED <<heap, lru>>
-CacheClear == /\ Tick /\ hostc' = {} /\ last' = [call |-> <<"cache_clear">>, result |-> <<"nil">>, obj |-> 0] /\ UNCHANGED <<heap, lru>>
+                             /\ last' = [call |-> <<"host", h, flag>>, result |-> PureHost(h, flag), obj |-> 0, ret |-> 0]
+                     /\ UNCHANGED <<heap, lru, lruP>>
+\* cache_clear / cache_configure touch the three host caches only: the constructor and from_parts caches survive
+CacheClear == /\ Tick /\ hostc' = {} /\ last' = [call |-> <<"cache_clear">>, result |-> Nil, obj |-> 0, ret |-> 0] /\ UNCHANGED <<heap, lru, lruP>>
 \* cache_configure re-wraps the same pure functions with new (empty) caches
-CacheConfigure == /\ Tick /\ hostc' = {} /\ last' = [call |-> <<"cache_configure">>, result |-> <<"nil">>, obj |-> 0] /\ UNCHANGED <<heap, lru>>
+CacheConfigure == /\ Tick /\ hostc' = {} /\ last' = [call |-> <<"cache_configure">>, result |-> Nil, obj |-> 0, ret |-> 0] /\ UNCHANGED <<heap, lru, lruP>>
 
 Next == \/ \E v \in Vals : CtorHit(v) \/ CtorMiss(v)
-        \/ \E o \in Ids, w \in Vals : Modify(o, w)
+        \/ \E o \in Ids, w \in Vals : ModifyCachedHit(o, w) \/ ModifyCachedMiss(o, w) \/ ModifyUncached(o, w)
+        \/ \E o \in Ids : SelfReturn(o)
         \/ \E o \in Ids, p \in Props : PropHit(o, p) \/ PropFill(o, p)
         \/ \E o \in Ids : Unpickle(o)
         \/ \E h \in Hosts, f \in BOOLEAN : HostCall(h, f)
@@ -121,17 +168,19 @@ Spec == Init /\ [][Next]_vars
 Immutable == [][\A o \in DOMAIN heap : heap'[o].val = heap[o].val]_vars
 \* C08/C09: every cached entry (eagerly pre-filled or lazily derived) is what the accessor must return
 CacheCoherent == \A o \in Ids : \A p \in DOMAIN heap[o].cache : heap[o].cache[p] = Derive(p, heap[o].val)
-\* C08: the constructor cache maps a value to an object of that value
-LruCoherent == \A i \in 1..Len(lru) : heap[lru[i][2]].val = lru[i][1]
+\* C08: the constructor cache and the from_parts cache map a key to an object of that value
+LruCoherent == /\ \A i \in 1..Len(lru) : heap[lru[i][2]].val = lru[i][1]
+               /\ \A i \in 1..Len(lruP) : PKey(heap[lruP[i][2]].val) = lruP[i][1]
 \* C08: every completed call returned the pure function of its arguments
 Oracle(call) ==
-  IF call[1] \in {"none", "cache_clear", "cache_configure"} THEN <<"nil">>
-  ELSE IF call[1] = "ctor" THEN <<"obj", call[2]>>
-  ELSE IF call[1] = "modify" THEN <<"obj", call[3]>>
+  IF call[1] \in {"none", "cache_clear", "cache_configure"} THEN Nil
+  ELSE IF call[1] \in {"ctor", "self", "unpickle"} THEN <<"obj", call[2]>>
+  ELSE IF call[1] \in {"modify", "modifyq"} THEN <<"obj", call[3]>>
   ELSE IF call[1] = "read" THEN Derive(call[3], call[2])
-  ELSE IF call[1] = "unpickle" THEN <<"obj", call[2]>>
   ELSE PureHost(call[2], call[3])
 HistoryFree == last.result = Oracle(last.call)
-LruBounded == Len(lru) <= LruSize
-View == <<heap, lru, hostc, last>>
+\* the object a call returns has the value the call reports (sharing never hands out an object of another value)
+ReturnsRightObject == last.ret # 0 => (last.ret \in Ids /\ <<"obj", heap[last.ret].val>> = last.result)
+LruBounded == Len(lru) <= LruSize /\ Len(lruP) <= LruSize
+View == <<heap, lru, lruP, hostc, last>>
 =============================================================================
